@@ -76,7 +76,7 @@ def make_overlay(pid, part, bdir):
     # engine packages -> virtual packages under /repo/x/verif/<name>
     for name in engine_pkgs():
         d = os.path.join(VERIF, "engine", name)
-        for f in sorted(glob.glob(os.path.join(d, "*.go"))):
+        for f in sorted(glob.glob(os.path.join(d, "*.go")) + glob.glob(os.path.join(d, "*.s"))):
             if f.endswith("_test.go"):
                 continue
             rep[os.path.join(REPO, "x", "verif", name, os.path.basename(f))] = f
@@ -96,6 +96,19 @@ def make_overlay(pid, part, bdir):
                 sys.exit(2)
             d = json.loads(r.stdout)
             rep.update(d["Replace"])
+            # fast goroutine-id accessor (assembly needs a real package directory)
+            gdir = os.path.join(VERIF, "engine", "instr", "getg")
+            pkgname = "main"
+            for gf in sorted(d["Replace"].values()):
+                for line in open(gf):
+                    if line.startswith("package "):
+                        pkgname = line.split()[1]
+                        break
+                break
+            gen = os.path.join(sub, "zz_verif_getg.go")
+            open(gen, "w").write(open(os.path.join(gdir, "zz_verif_getg.go.tmpl")).read().replace("PKGNAME", pkgname))
+            rep[os.path.join(REPO, ip, "zz_verif_getg.go")] = gen
+            rep[os.path.join(REPO, ip, "zz_verif_getg_amd64.s")] = os.path.join(gdir, "zz_verif_getg_amd64.s")
             part.setdefault("_instr_stats", {})[ip] = {"stats": d.get("stats"), "points": d.get("pcs")}
     # stubs over the package's own tests (only the harness is compiled)
     stubdir = os.path.join(bdir, "stubs")
